@@ -1,4 +1,7 @@
 mod abs;
+mod checks;
+mod codec;
+mod layout;
 mod core;
 mod rec;
 mod repl;
@@ -6,7 +9,9 @@ mod vstore;
 
 fn main() {
     // panics inside the code under test are data, not noise
-    std::panic::set_hook(Box::new(|_| {}));
+    if std::env::var("HCV_VERBOSE").is_err() {
+        std::panic::set_hook(Box::new(|_| {}));
+    }
     let args: Vec<String> = std::env::args().collect();
     if args.len() < 2 {
         eprintln!("usage: hcv <abs|...> [options]");
@@ -16,6 +21,10 @@ fn main() {
         "abs" => abs::run(&args[2..]),
         "replay" => abs::run_replay(&args[2..]),
         "repl" => repl::run(&args[2..]),
+        "golden" => checks::golden(&args[2..]),
+        "treecheck" => checks::treecheck(&args[2..]),
+        "wirecheck" => checks::wirecheck(&args[2..]),
+        "foreign" => checks::foreign(&args[2..]),
         x => {
             eprintln!("unknown subcommand {x}");
             std::process::exit(2);
